@@ -1506,3 +1506,58 @@ def prestart_relay_case(who, k, late):
         return [len(r["fired"]) for r in w.results if r["who"] == who], [r["fired"] for r in w.results if r["who"] == who]
     finally:
         w.stop()
+
+
+# ---------------------------------------------------------------------------------------------
+# the SECOND LEG of Tub.getReference (lib/RefLeg.v, lib/ConvergeRef.v) on the real code: b.getYourReferenceByName over the
+# new Broker, on a connection that the network silently drops
+
+SECOND_LEG_ROUNDS, SECOND_LEG_STEP = 20, 130
+
+
+def second_leg_case(dialer, stage, hints=1):
+    """`dialer` calls Tub.getReference (both legs); blocks are delivered until the dialer holds a Broker (stage "dialer":
+    when the master dials, the other end is then still waiting for the decision) or both Tubs do (stage "both"); then the
+    network DROPS the link without telling anybody (World.cut, no close notification: no FIN, no RST) and 20 x 130 s of
+    virtual time pass; then the dialer's end is told (connectionLost).  Returns the facts the oracle and the
+    correspondence look at."""
+    rng = _random.Random(11)
+    w = World()
+    try:
+        x, y = dialer, other(dialer)
+        w.lookup(x, hints)
+        rec = w.results[0]
+        for i in range(400):
+            have = bool(w.live_broker_link(x)) and (stage == "dialer" or bool(w.live_broker_link(y)))
+            ps = w.pending_steps()
+            if have or not ps:
+                break
+            w.do_net_step(ps[0])
+        facts = dict(dialer=x, stage=stage, hints=hints)
+        lb = w.live_broker_link(x)
+        if lb is None or rec["fired"]:
+            facts["harness"] = "no Broker at the dialer before the drop (fired=%r)" % (rec["fired"],)
+            return facts
+        link = w.net.links[lb[0]]
+        b = [b for ref, b in w.tub[x].brokers.items() if ref.getTubID() == w.tubid[y]][0]
+        facts["requests_before"] = sorted(b.waitingForAnswers.keys())
+        for l in list(w.net.links):
+            w.cut(l)                              # every link between the two: nothing is delivered any more, nobody is told
+        t0 = E.clock.seconds()
+        for i in range(SECOND_LEG_ROUNDS):
+            E.clock.advance(SECOND_LEG_STEP)
+            E.turn()
+            # whatever the Tubs write or close now goes nowhere (the links are cut); no close notification is scheduled
+        facts.update(waited=int(round(E.clock.seconds() - t0)), fired_while_silent=list(rec["fired"]),
+                     dialer_broker_silent=w.live_broker_link(x) is not None, peer_broker_silent=w.live_broker_link(y) is not None,
+                     requests_silent=sorted(b.waitingForAnswers.keys()), disconnected_silent=bool(b.disconnected),
+                     timers=sorted(set(type(getattr(c, "func", None)).__name__ + ":" + getattr(getattr(c, "func", None), "__name__", "?")
+                                       for c in E.clock.getDelayedCalls())))
+        # the dialer's end learns of the loss
+        w.close_seen(link, w.end_of(link, x).side)
+        E.turn()
+        facts.update(fired_after_notification=list(rec["fired"]), dialer_broker_after=w.live_broker_link(x) is not None,
+                     requests_after=sorted(b.waitingForAnswers.keys()), disconnected_after=bool(b.disconnected))
+        return facts
+    finally:
+        w.stop()
